@@ -10,17 +10,18 @@ import (
 
 // GenOpts steers the program generator.
 type GenOpts struct {
-	MaxFiles    int  // 1..MaxFiles files (default 3)
-	Services    bool // generate services
-	Defaults    bool // field defaults
-	Consts      bool // constants
-	Annotations bool // go.* annotations
-	Recursive   bool // self-referential structs via optional fields / containers
-	NonStrict   bool // omit requiredness on some fields, compile non-strict
-	Small       bool // fewer / smaller definitions (faster labs)
-	RedactRate  int  // when > 0, one field in RedactRate carries go.redact and one in 2*RedactRate go.nolog (C15 labs)
-	Hostile     bool // draw identifiers and file names from the hostile pool (Go keywords, initialisms, generated-method names, std package names)
-	BackEdges   bool // cyclic includes: later files include earlier ones and typedef their types (compile-only properties)
+	MaxFiles     int  // 1..MaxFiles files (default 3)
+	Services     bool // generate services
+	Defaults     bool // field defaults
+	Consts       bool // constants
+	Annotations  bool // go.* annotations
+	Recursive    bool // self-referential structs via optional fields / containers
+	NonStrict    bool // omit requiredness on some fields, compile non-strict
+	Small        bool // fewer / smaller definitions (faster labs)
+	RedactRate   int  // when > 0, one field in RedactRate carries go.redact and one in 2*RedactRate go.nolog (C15 labs)
+	MoreServices bool // more services and functions per file (C19)
+	Hostile      bool // draw identifiers and file names from the hostile pool (Go keywords, initialisms, generated-method names, std package names)
+	BackEdges    bool // cyclic includes: later files include earlier ones and typedef their types (compile-only properties)
 	// Avoid lists defect classes the generator must not produce (known,
 	// unrepaired defects excluded by construction; each exclusion is counted
 	// by the caller through Excluded).
@@ -230,7 +231,11 @@ func (g *gctx) genFile(f *File) {
 		}
 	}
 	if g.o.Services {
-		for i, n := 0, g.intn(0, 2, "nsvc"); i < n; i++ {
+		lo, hi2 := 0, 2
+		if g.o.MoreServices {
+			lo, hi2 = 1, 3
+		}
+		for i, n := 0, g.intn(lo, hi2, "nsvc"); i < n; i++ {
 			add(g.genService())
 		}
 	}
